@@ -82,8 +82,15 @@ def apply_real(sem, op):
 
 
 def run_sequence(capacity, ops):
+    from ..detsched import inline_patched
+    with inline_patched():
+        return _run_sequence(capacity, ops)
+
+
+def _run_sequence(capacity, ops):
     """Replays ops on a fresh real semaphore and the model.  Returns
-    (violation or None, info)."""
+    (violation or None, info).  Runs on the inline shim: an operation that
+    would block forever raises WouldBlock instead of hanging."""
     from s3transfer.utils import SlidingWindowSemaphore
     sem = SlidingWindowSemaphore(capacity)
     m = Model(capacity)
@@ -174,6 +181,12 @@ def sequences(draw, max_len=40):
 
 # ------------------------------------------------------------- plain
 def run_task_semaphore(capacity, ops):
+    from ..detsched import inline_patched
+    with inline_patched():
+        return _run_task_semaphore(capacity, ops)
+
+
+def _run_task_semaphore(capacity, ops):
     """ops: list of 'a' (non-blocking acquire) / 'r' (release one held)."""
     from s3transfer.utils import TaskSemaphore, NoResourcesAvailable
     sem = TaskSemaphore(capacity)
@@ -185,6 +198,8 @@ def run_task_semaphore(capacity, ops):
                 got = 'ok'
             except NoResourcesAvailable:
                 got = 'raise'
+            except Exception as e:  # noqa
+                got = type(e).__name__
             exp = 'ok' if held < capacity else 'raise'
             if got != exp:
                 return (f'task-semaphore:acquire-{got}',
